@@ -13,15 +13,92 @@ def _sample(seq, n, rnd):
     return [seq[i] for i in sorted(rnd.sample(range(len(seq)), n))]
 
 
+OPENERS = ('if', 'ifelse', 'while', 'for', 'whileelse', 'forelse', 'with', 'try', 'def')
+SECTIONS = ('else', 'except', 'finally')
+JUMPS = ('break', 'continue', 'return', 'raise')
+
+
+def features(toks):
+    """Nesting interactions of a skeleton: for every compound statement, (where it sits, what it is, which jumps it
+    contains per section, whether it ends its block, whether something follows the enclosing statement)."""
+    root = dict(kind='fn', sec='body', kids=[], jumps={}, parent=None)
+    cur = root
+    for t in toks:
+        if t in OPENERS:
+            n = dict(kind=t, sec='body', kids=[], jumps={}, parent=cur, psec=cur['sec'])
+            cur['kids'].append((cur['sec'], n))
+            cur = n
+        elif t in SECTIONS:
+            cur['sec'] = t
+        elif t == 'end':
+            cur = cur['parent']
+        else:
+            cur['kids'].append((cur['sec'], t))
+            if t in JUMPS:
+                q = cur
+                sec = cur['sec']
+                while q is not None:       # the jump is inside every enclosing statement, in the section it was entered through
+                    q['jumps'].setdefault(sec, set()).add(t)
+                    sec = q.get('psec')
+                    q = q['parent']
+    out = set()
+
+    def walk(n, followed):
+        for i, (sec, k) in enumerate(n['kids']):
+            same = [x for x in n['kids'] if x[0] == sec]
+            last = same[-1][1] is k
+            if isinstance(k, dict):
+                js = tuple(sorted((s, tuple(sorted(v))) for s, v in k['jumps'].items()))
+                ends = {}
+                for s2, x in k['kids']:       # how each of its blocks ends
+                    ends[s2] = x['kind'] if isinstance(x, dict) else x
+                out.add((n['kind'], sec, k['kind'], js, tuple(sorted(ends.items())), last, followed if last else True))
+                walk(k, (not last) or followed)
+    walk(root, False)
+    return out
+
+
+def _stratified(seq, n, rnd, k=3):
+    """A seeded sample of n skeletons in which every nesting interaction (features) that occurs at all occurs at least k
+    times (as far as n allows); the rest is filled uniformly."""
+    seq = list(seq)
+    if len(seq) <= n:
+        return seq
+    order = list(range(len(seq)))
+    rnd.shuffle(order)
+    feats = [features(s) for s in seq]
+    count = {}
+    chosen = set()
+    # greedy cover: repeatedly take the skeleton (first in the seeded order) with the most interactions seen < k times
+    # (lazy evaluation: gains only shrink, so a popped entry whose gain is still current is the maximum)
+    import heapq
+    heap = [(-len(feats[i]), pos, i) for pos, i in enumerate(order)]
+    heapq.heapify(heap)
+    while heap and len(chosen) < n:
+        g0, pos, i = heapq.heappop(heap)
+        g = sum(1 for f in feats[i] if count.get(f, 0) < k)
+        if g == 0:
+            continue
+        if -g0 != g:
+            heapq.heappush(heap, (-g, pos, i))
+            continue
+        chosen.add(i)
+        for f in feats[i]:
+            count[f] = count.get(f, 0) + 1
+    rest = [i for i in order if i not in chosen]
+    chosen |= set(rest[:max(0, n - len(chosen))])
+    return [seq[i] for i in sorted(chosen)]
+
+
 # (family, max statements, sample size quick, sample size thorough, decoration variants, decorator options); None = all
 FAMILY_PLAN = [
-    ('exc', 5, 400, None, 1, {}), ('exc', 6, 0, 6000, 1, {}),
-    ('loop', 5, 400, None, 1, {}), ('loop', 6, 0, 6000, 1, {}),
-    ('loopexc', 5, 300, None, 1, {}),
-    ('ctx', 5, 200, 3000, 1, {}),
-    ('nestedtry', 6, 600, None, 2, dict(balanced_exc=True)), ('nestedtry', 7, 0, None, 1, dict(balanced_exc=True)),
+    ('exc', 5, 400, None, 1, {}), ('exc', 6, 0, 2000, 1, {}),
+    ('loop', 5, 400, 2500, 1, {}), ('loop', 6, 0, 2000, 1, {}),
+    ('loopexc', 5, 300, 2500, 1, {}),
+    ('ctx', 5, 200, 1500, 1, {}),
+    ('nestedtry', 6, 600, None, 2, dict(balanced_exc=True)), ('nestedtry', 7, 0, 2000, 1, dict(balanced_exc=True)),
     ('tryfin', 6, 300, None, 1, dict(balanced_exc=True)),
-    ('tryret', 7, 300, None, 1, {}),
+    ('tryret', 7, 450, 3000, 1, {}),
 ]
 
 
@@ -40,7 +117,7 @@ def program_set(tier, seed, loop_else=False):
     sk, r = skeleton.enumerate_skeletons(4, 3, 2, loop_else=loop_else)
     tlcs.append(r)
     if quick:       # the thorough tier decorates every skeleton; the quick tier a seeded sample of them
-        sk = _sample(sk, 1200, rnd)
+        sk = _stratified(sk, 1200, rnd, k=2)
     progs = skeleton.decorated(sk, 1, seed)
     for fam, n, nq, nt, variants, dopts in FAMILY_PLAN:
         want = nq if quick else nt
@@ -50,7 +127,7 @@ def program_set(tier, seed, loop_else=False):
         tlcs.append(r)
         sk = [s for s in sk if sum(1 for t in s if t not in ('end', 'else', 'except', 'finally')) > 4]   # <=4 already covered
         if want is not None:
-            sk = _sample(sk, want, rnd)
+            sk = _stratified(sk, want, rnd, k=1 if quick else 3)
         progs += skeleton.decorated(sk, 1 if quick else variants, seed + len(progs), **dopts)
     sk, r = skeleton.enumerate_skeletons(4 if quick else 5, 2, 2, loop_else=loop_else, funcs=True, allowed=skeleton.FAMILIES['fun'])
     tlcs.append(r)
@@ -58,15 +135,15 @@ def program_set(tier, seed, loop_else=False):
     if quick:
         sk = _sample(sk, 500, rnd)
     progs += skeleton.decorated(sk, 1 if quick else 2, seed + 1, closure_bias=True)
-    nrand = 300 if quick else 5000
+    nrand = 300 if quick else 3000
     progs += mprun.random_programs(nrand, seed, lo=2, hi=3 if quick else 4, maxdepth=3, loop_else=loop_else)
     progs += mprun.random_programs(nrand // 2, seed + 7, lo=2, hi=4, maxdepth=3, loop_else=loop_else, with_=False, calls=False,
                                    dele=False, exprstmt=False)      # exception / jump focused
     if mp.CONTEXTS:     # lambdas kept in variables and called later, in and around compound statements
-        progs += mprun.random_programs(300 if quick else 3000, seed + 13, lo=2, hi=4, maxdepth=3, loop_else=loop_else, lam_rate=0.25,
+        progs += mprun.random_programs(300 if quick else 1500, seed + 13, lo=2, hi=4, maxdepth=3, loop_else=loop_else, lam_rate=0.25,
                                        try_=False, with_=False, dele=False, hnames=False)
     # nested functions that read and rebind the enclosing function's variables, defined and called in and around compound statements
-    progs += mprun.random_programs(300 if quick else 3000, seed + 17, lo=2, hi=4, maxdepth=3, loop_else=loop_else, def_rate=0.12,
+    progs += mprun.random_programs(300 if quick else 1500, seed + 17, lo=2, hi=4, maxdepth=3, loop_else=loop_else, def_rate=0.12,
                                    call_rate=0.25, closure_bias=True, with_=False, dele=False, hnames=False)
     # very large random programs add cost, not shapes
     progs = [p for p in progs if len(p['nodes']) <= 45]
@@ -160,10 +237,7 @@ def run_monitor(rep, module, classify, loop_else=False, claims_fn=export.all_cla
             rep.add_tlc(r)
     wd = common.scratch('%s_%d' % (module, os.getpid()))
     progs, claims = export_all(rep, progs, claims_fn)
-    cf = os.path.join(wd, 'claims.json')
-    with open(cf, 'w') as f:
-        json.dump(claims, f)
-    res, wd2 = mprun.explore(progs, module=module, spec='MSpec', invariants=('Report',), env=dict(CLAIM_FILE=cf),
+    res, wd2 = mprun.explore(progs, module=module, spec='MSpec', invariants=('Report',), claims=claims,
                              bounds=bounds(tier), name=module, timeout=3000)
     rep.add_tlc(res)
     recs = res.json
